@@ -233,6 +233,22 @@ fn random_spread(n: u32, dims: usize) {
     }
     std::mem::forget((v, p, rng));
 }
+/// Heterogeneous domain whose first and last dimension coincide: every coordinate is drawn from
+/// its own range.
+/// @h tier=quick bound="1 individual, 3 dimensions [-1,2],[10,20],[-1,2]; all draw sequences within 5 draws" unwind=7 cost=4
+#[cfg_attr(kani, kani::proof)]
+#[cfg_attr(kani, kani::unwind(7))]
+pub fn h_c14_spread_1x3_mixed() {
+    let p = RealP::d3([(-1.0, 2.0), (10.0, 20.0), (-1.0, 2.0)]);
+    let mut rng = sym_random(5);
+    let v = Initialization::<RealP>::initialize(&RandomSpread::from_params(1), &p, &mut rng);
+    assert!(v.len() == 1 && v[0].len() == 3, "RandomSpread: one solution of the problem dimension");
+    assert!(v[0][0] >= -1.0 && v[0][0] < 2.0, "RandomSpread: first coordinate inside its domain");
+    assert!(v[0][1] >= 10.0 && v[0][1] < 20.0, "RandomSpread: middle coordinate inside its own domain");
+    assert!(v[0][2] >= -1.0 && v[0][2] < 2.0, "RandomSpread: last coordinate inside its domain");
+    vcover!(true, "reached");
+    std::mem::forget((v, p, rng));
+}
 // @h tier=quick bound="0 individuals" unwind=4
 h!(h_c14_spread_0, 4, random_spread(0, 1));
 // @h tier=quick bound="1 individual, 2 dimensions with different domains; all draw sequences within 4 draws" unwind=6 cost=3
